@@ -290,4 +290,28 @@ theorem stageQ_sound (S : St) (rel single kT : Bool) (x y : Rat) (hcur : S.cur =
     simp only [stageQ]
     exact lq_nonquad S rel _ cs ⟨by simp [Kind.arity, hl], by decide⟩ (by decide)
 
+/-- the L block -/
+theorem stageL_sound (S : St) (rel kz : Bool) (x y : Rat) (hcur : S.cur = (x, y)) (k : Kind) (cs : List Coord)
+    (hs : Shaped k cs) :
+    ((stageL (x, y) (endPoint x y (if rel then x else 0) (if rel then y else 0) k cs) kz k cs).2.2 = false →
+      stepCmd S ⟨(stageL (x, y) (endPoint x y (if rel then x else 0) (if rel then y else 0) k cs) kz k cs).1, rel,
+        vals (stageL (x, y) (endPoint x y (if rel then x else 0) (if rel then y else 0) k cs) kz k cs).2.1⟩ =
+      stepCmd S ⟨k, rel, vals cs⟩) ∧
+    ((stageL (x, y) (endPoint x y (if rel then x else 0) (if rel then y else 0) k cs) kz k cs).2.2 = true →
+      (stepCmd S ⟨k, rel, vals cs⟩).2.filterMap simp1 = [] ∧ (stepCmd S ⟨k, rel, vals cs⟩).1.cur = S.cur ∧ k = .L) := by
+  obtain ⟨hl, hz⟩ := hs
+  have ho := off_eq S rel x y hcur
+  have e1 : S.cur.1 = x := by rw [hcur]
+  have e2 : S.cur.2 = y := by rw [hcur]
+  generalize hrx : (if rel then x else 0 : Rat) = rx at ho ⊢
+  generalize hry : (if rel then y else 0 : Rat) = ry at ho ⊢
+  cases k <;> simp only [Kind.arity] at hl
+  case Z => exact absurd rfl hz
+  case L =>
+    obtain ⟨c5, c6, rfl⟩ := len2 cs hl
+    simp only [stageL, endPoint]
+    by_cases hx : c5.v + rx = x <;> by_cases hy : c6.v + ry = y <;> cases kz <;>
+      simp [hx, hy, stepCmd, vals, ho, e1, e2, filterMap_single, simp1, hcur]
+  all_goals simp [stageL]
+
 end Verif.Proofs.SvgSound
